@@ -168,7 +168,12 @@ M('U3', 'src/xdoctest/doctest_example.py',
 M('W1', 'src/xdoctest/parser.py', "        except Exception as orig_ex:\n\n            if labeled_lines is None:",
   "        except SyntaxError as orig_ex:\n\n            if labeled_lines is None:", ['C14'],
   'parse wraps only SyntaxError')
-M('I1', 'src/xdoctest/utils/util_import.py', None, None, ['C17'], '__init__ chain check skipped')
+M('I1', 'src/xdoctest/utils/util_import.py', """        subdir = dirname(modpath)
+        while subdir and subdir != base:
+            if not exists(join(subdir, '__init__.py')):
+                return False
+            subdir = dirname(subdir)
+        return True""", """        return True""", ['C17'], '__init__ chain check skipped')
 M('F0', 'src/xdoctest/doctest_part.py', "            for line in want_text.splitlines():",
   "            for line in want_text.splitlines()[:-1] or want_text.splitlines():", ['C18', 'C19'],
   'format_part drops the last want line of multi-line wants')
@@ -241,6 +246,31 @@ M('E17', 'src/xdoctest/doctest_example.py', "        self.global_namespace.clear
 
 M('U4', 'src/xdoctest/doctest_example.py', "        with warnings.catch_warnings(record=True) as self.warn_list:\n            for partx, part in enumerate(self._parts):",
   "        self.warn_list = []\n        if True:\n            for partx, part in enumerate(self._parts):", ['C12', 'C11'], 'catch_warnings around the part loop dropped')
+
+
+M('I2', 'src/xdoctest/utils/util_import.py', """        # Check for directory-based modules (has presidence over files)
+        modpath = join(dpath, _fname_we)
+        if exists(modpath):
+            if isfile(join(modpath, '__init__.py')):
+                if _isvalid(modpath, dpath):
+                    return modpath
+
+        # If that fails, check for file-based modules
+        for fname in candidate_fnames:
+            modpath = join(dpath, fname)
+            if isfile(modpath):
+                if _isvalid(modpath, dpath):
+                    return modpath""", """        # If that fails, check for file-based modules
+        for fname in candidate_fnames:
+            modpath = join(dpath, fname)
+            if isfile(modpath):
+                if _isvalid(modpath, dpath):
+                    return modpath
+        modpath = join(dpath, _fname_we)
+        if exists(modpath):
+            if isfile(join(modpath, '__init__.py')):
+                if _isvalid(modpath, dpath):
+                    return modpath""", ['C17'], 'a module file wins over a package of the same name')
 
 
 def make_copy():
